@@ -168,4 +168,4 @@ impl WalBlobReader {
 
 #[cfg(kani)]
 #[path = "/verif/units/kani/bitbox_wal_read.rs"]
-mod verif_kani;
+pub(crate) mod verif_kani;
